@@ -59,6 +59,28 @@ def design_scenarios():
             expect="observed"),
         scn("mint-meltinternal-mint", [P(1, "mint", "mq1", outs=["o1"]), P(2, "melt", "lq1", ["s1"]), P(3, "mint", "mq1", outs=["o2"])],
             mq=(("mq1", "UNPAID", True),), lq=(("lq1", "UNPAID", "none", "mq1"),)),
+        # five requests, two secrets
+        scn("melt2-swap-swap-poll", [P(1, "melt", "lq1", ["s1", "s2"]), P(2, "swap", ins=["s1"], outs=["o1"]), P(3, "swap", ins=["s2"], outs=["o2"]),
+                                     P(4, "pollmelt", "lq1")], secrets=("s1", "s2")),
+        scn("melt-melt-poll-check-swap", [P(1, "melt", "lq1", ["s1"]), P(2, "melt", "lq1", ["s1"]), P(3, "pollmelt", "lq1"),
+                                          P(4, "checkstate", ins=["s1"]), sw(5)]),
+        scn("melt-melt2-poll-poll2-swap", [P(1, "melt", "lq1", ["s1"]), P(2, "melt", "lq2", ["s1"]), P(3, "pollmelt", "lq1"),
+                                           P(4, "pollmelt", "lq2"), sw(5)], lq=LQ2),
+        scn("mint3-notify-poll", [P(1, "mint", "mq1", outs=["o1"]), P(2, "mint", "mq1", outs=["o2"]), P(3, "mint", "mq1", outs=["o3"]),
+                                  P(4, "notify", "mq1"), P(5, "pollmint", "mq1")], mq=(("mq1", "UNPAID", True),), lq=()),
+        scn("meltinternal-mint-mint-poll-notify", [P(1, "melt", "lq1", ["s1"]), P(2, "mint", "mq1", outs=["o1"]), P(3, "mint", "mq1", outs=["o2"]),
+                                                   P(4, "pollmint", "mq1"), P(5, "notify", "mq1")],
+            mq=(("mq1", "UNPAID", True),), lq=(("lq1", "UNPAID", "none", "mq1"),)),
+    ]
+    if tier() == "thorough":
+        s += [
+            scn("melt3-poll2-swap2", [P(1, "melt", "lq1", ["s1"]), P(2, "melt", "lq1", ["s1", "s2"]), P(3, "melt", "lq2", ["s2"]), P(4, "pollmelt", "lq1"),
+                                      P(5, "pollmelt", "lq2"), P(6, "swap", ins=["s1"], outs=["o1"]), P(7, "swap", ins=["s2"], outs=["o2"])],
+                secrets=("s1", "s2"), lq=LQ2),
+            scn("melt-melt-poll-poll-check-swap", [P(1, "melt", "lq1", ["s1"]), P(2, "melt", "lq1", ["s1"]), P(3, "pollmelt", "lq1"), P(4, "pollmelt", "lq1"),
+                                                   P(5, "checkstate", ins=["s1"]), sw(6)]),
+        ]
+    s += [
         # defective variants
         scn("swap-melt/no-mutex", [sw(1), P(2, "melt", "lq1", ["s1"])], mutex=False, expect="fail"),
         scn("mint-mint/no-mutex", [P(1, "mint", "mq1", outs=["o1"]), P(2, "mint", "mq1", outs=["o2"])], mq=(("mq1", "UNPAID", True),),
@@ -81,6 +103,8 @@ def crash_scenarios():
             mq=(("mq1", "UNPAID", False),), lq=(("lq1", "UNPAID", "none", "mq1"),)),
         scn("crash/pollmelt", [P(1, "pollmelt", "lq1"), post(2, "pollmelt", q="lq1"), post(3, "checkstate", ins=["s1"])], crash=True,
             lq=PENDQ, pend=(("s1", "lq1"),)),
+        scn("crash/melt-poll-swap", [P(1, "melt", "lq1", ["s1"]), P(2, "pollmelt", "lq1"), P(3, "swap", ins=["s1"], outs=["o1"]),
+                                     post(4, "pollmelt", q="lq1"), post(5, "checkstate", ins=["s1"])], crash=True),
         scn("crash/mint", [P(1, "mint", "mq1", outs=["o1"]), post(2, "pollmint", q="mq1"), post(3, "mint", q="mq1", outs=["o2"])], crash=True,
             mq=(("mq1", "UNPAID", True),), lq=()),
     ]
@@ -348,7 +372,7 @@ PC_CALL = {
     "t1": "db:GetMintQuote", "t2": "ln:InvoiceStatus", "t3": "db:UpdateMintQuoteState", "t4": "db:UpdateMintQuoteState",
     "t5": "db:GetBlindSignatures", "t6": "db:UpdateMintQuoteState", "t7": "db:SaveBlindSignatures", "t8": "db:UpdateMintQuoteState",
 }
-GROUPS = {"crash/swap": ("swap", "swap-fee"),
+GROUPS = {"crash/melt-poll-swap": (), "crash/swap": ("swap", "swap-fee"),
           "crash/melt": ("melt-success", "melt-pending", "melt-failed", "melt-error-succeeded", "melt-failed-notfound", "melt-error-error"),
           "crash/melt-internal": ("melt-internal",),
           "crash/pollmelt": ("pollmelt-success", "pollmelt-failed", "checkstate-success"),
